@@ -436,10 +436,36 @@ def snapshot(m, fg, fp, phases, ids, extra_g=()):
 PREC_HIST = None     # filled from the object itself (every array of the history object)
 
 
+def make_named_model(phases, names, x0, T, gamma, bins, adaptive):
+    """as stubs.make_binary_model, but every precipitate has an output name of its own
+    (PrecipitateParameters(name, phase=database name))"""
+    from stubs import StubBinary
+    from kawin.precipitation import PrecipitateModel, VolumeParameter
+    from kawin.precipitation.PrecipitationParameters import PrecipitateParameters
+    m = PrecipitateModel(precipitateParameters=[PrecipitateParameters(n, phase=p) for n, p in zip(names, phases)], elements=['B'])
+    cmin, cmax, nb, minb, maxb = bins
+    m.setPBMParameters(cMin=cmin, cMax=cmax, bins=nb, minBins=minb, maxBins=maxb, adaptive=adaptive)
+    m.setInitialComposition(x0)
+    with quiet():
+        m.setTemperature(T)
+    a = 0.4e-9
+    m.setVolumeAlpha(a ** 3, VolumeParameter.ATOMIC_VOLUME, 4)
+    for p in phases:
+        m.setInterfacialEnergy(gamma, phase=p)
+        m.setVolumeBeta(a ** 3, VolumeParameter.ATOMIC_VOLUME, 4, phase=p)
+        m.setNucleationSite('dislocations', phase=p)
+    m.setNucleationDensity(grainSize=1, dislocationDensity=1e15)
+    m.setThermodynamics(StubBinary(list(phases)))
+    return m
+
+
 def build_prec(c):
     from stubs import make_binary_model
     from kawin.precipitation.coupling.Strength import StrengthModel
-    m = make_binary_model(phases=tuple(c['phases']), x0=c['x0'], T=c['T'], gamma=c['gamma'], bins=tuple(c['bins']), adaptive=c['adaptive'])
+    if c.get('names') and list(c['names']) != list(c['phases']):
+        m = make_named_model(list(c['phases']), list(c['names']), c['x0'], c['T'], c['gamma'], tuple(c['bins']), c['adaptive'])
+    else:
+        m = make_binary_model(phases=tuple(c['phases']), x0=c['x0'], T=c['T'], gamma=c['gamma'], bins=tuple(c['bins']), adaptive=c['adaptive'])
     if c['record'] in ('on', 'toggle'):
         m.setPSDrecording(True)
     sm = None
@@ -622,8 +648,9 @@ def roundtrip_hits(c, r):
         groups.setdefault(g, []).append(what)
     for g, whats in groups.items():
         s2 = 'StrengthModel' if g == 'strength history' else site
-        hits.append(('roundtrip_field', s2, g, '%s (%s, %d phase(s), saved after %d solve call(s)): the loaded model differs from the saved one in %s'
-                     % (s2, rec, len(c.get('phases', [])) or 1, len(c['times']), ', '.join(whats[:6]))))
+        nm = (', precipitate output names %r for phases %r' % (c['names'], c['phases'])) if c.get('names') and list(c['names']) != list(c.get('phases', [])) else ''
+        hits.append(('roundtrip_field', s2, g, '%s (%s, %d phase(s)%s, saved after %d solve call(s)): the loaded model differs from the saved one in %s'
+                     % (s2, rec, len(c.get('phases', [])) or 1, nm, len(c['times']), ', '.join(whats[:6]))))
     if r.get('strength_err'):
         hits.append(('load_succeeds', 'StrengthModel', 'coupled strength model', 'StrengthModel save/load raised ' + r['strength_err']))
     return hits
@@ -712,6 +739,96 @@ def run_files(c, py):
                                 'models saved under the names %r (files written: %r): the model loaded from %r differs from the model saved under that name in %s%s'
                                 % (c['names'], files, name, ', '.join(bad[:5]), '; it reproduces the model saved under %r' % other[0] if other else '')))
     return out
+
+
+def run_mhist(c, py):
+    """histories on ONE model object and several model objects alive together:
+    resave      solve, save(name), solve on, save(name) again           -> the file holds the LATER state
+    reset       solve, save, reset(), solve again, save under name 2    -> file 2 holds the state after the second run
+    interleaved two models solved alternately, segment by segment       -> each equals a twin that ran alone, and its file reproduces it"""
+    root = os.path.join(BUILD[0], 'mhist_%d' % c.get('idx', 0))
+    if os.path.isdir(root):
+        shutil.rmtree(root)
+    os.makedirs(root)
+    kind, var = c['model'], c['variant']
+    site = 'GenericModel.save/load'
+    build = (lambda sp: build_diff(sp)) if kind == 'diff' else (lambda sp: build_prec(sp)[0])
+    hits = []
+
+    def solve(m, sp, t):
+        with quiet(), warnings.catch_warnings():
+            warnings.simplefilter('ignore')
+            m.solve(t, solverType=solver_of(sp['solver']))
+
+    def check_file(m, sp, name, label):
+        with quiet(), warnings.catch_warnings():
+            warnings.simplefilter('ignore')
+            m2 = build(sp)
+        try:
+            m2.load(os.path.join(root, name))
+        except Exception as e:
+            hits.append(('load_succeeds', site, 'model object used again', '%s: load(%r) raised %s' % (label, name, exc_name(e))))
+            return
+        bad = digest_diff(model_digest(m, kind), model_digest(m2, kind))
+        if bad:
+            hits.append(('roundtrip_field', site, 'model object used again', '%s: the model loaded from %r differs from the saved one in %s' % (label, name, ', '.join(bad[:5]))))
+
+    try:
+        sps = c['specs']
+        if var == 'resave':
+            with quiet():
+                m = build(sps[0])
+            solve(m, sps[0], c['times'][0]); m.save(os.path.join(root, 'run'))
+            solve(m, sps[0], c['times'][1]); m.save(os.path.join(root, 'run'))
+            check_file(m, sps[0], 'run', 'solve, save, solve on, save again under the same name')
+        elif var == 'reset':
+            with quiet():
+                m = build(sps[0])
+            solve(m, sps[0], c['times'][0]); m.save(os.path.join(root, 'first'))
+            with quiet():
+                m.reset()
+                if kind == 'prec' and sps[0]['record'] in ('on', 'toggle'):
+                    m.setPSDrecording(True)
+            solve(m, sps[0], c['times'][1]); m.save(os.path.join(root, 'second'))
+            check_file(m, sps[0], 'second', 'solve, save, reset(), solve again, save')
+        else:
+            with quiet():
+                ms = [build(sp) for sp in sps]
+                twins = [build(sp) for sp in sps]
+            for t in c['times']:
+                for m, sp in zip(ms, sps):
+                    solve(m, sp, t)
+            for m, sp in zip(twins, sps):
+                for t in c['times']:
+                    solve(m, sp, t)
+            for k, (m, tw, sp) in enumerate(zip(ms, twins, sps)):
+                bad = digest_diff(model_digest(tw, kind), model_digest(m, kind))
+                if bad:
+                    hits.append(('objects_independent', 'GenericModel.solve', 'two objects alive together',
+                                 'model %d of %d solved alternately with the others differs from the same model solved alone in %s' % (k, len(ms), ', '.join(bad[:5]))))
+                m.save(os.path.join(root, 'model%d' % k))
+            for k, (m, sp) in enumerate(zip(ms, sps)):
+                check_file(m, sp, 'model%d' % k, 'models solved alternately, all saved, then loaded')
+    except Unobservable:
+        raise
+    except Exception as e:
+        return {'hits': [], 'stage': 'solve', 'err': exc_name(e)}
+    return {'hits': hits, 'stage': None}
+
+
+def gen_mhist(rng, idx, quick):
+    var = ['resave', 'reset', 'interleaved'][idx % 3]
+    kind = 'prec' if rng.random() < 0.25 else 'diff'
+    n = 2 if var == 'interleaved' else 1
+    specs = []
+    for k in range(n):
+        if kind == 'diff':
+            specs.append({'ne': int(rng.choice([1, 2])), 'N': 12, 'record': str(rng.choice(['on', 'off'])), 'times': [], 'solver': 'euler', 'D': float([1e-13, 3e-13][k % 2])})
+        else:
+            specs.append({'phases': ['B1'], 'names': None, 'record': str(rng.choice(['on', 'off'])), 'times': [], 'solver': 'euler', 'strength': False, 'x0': 0.02,
+                          'T': float([700., 690.][k % 2]), 'gamma': 0.15, 'bins': [1e-10, 1e-8, 75, 50, 100], 'adaptive': True})
+    times = [2e4, 4e4] if kind == 'diff' else [1.0, 2.0]
+    return {'kind': 'mhist', 'model': kind, 'variant': var, 'specs': specs, 'times': times}
 
 
 NAME_FAMILIES = [
@@ -1034,6 +1151,276 @@ def reload_case(c):
 
 
 # ==========================================================================================
+# histories on ONE surrogate object, several objects alive together, calling conventions
+def query_all(s, system, queries):
+    """{(method, index): flat result or 'raises: ..'} for the given queries, in the given order"""
+    out = {}
+    for meth, a in queries:
+        args = [np.array(v, dtype=float) if isinstance(v, list) else v for v in a]
+        try:
+            r = getattr(s, meth)(*args)
+            out[(meth, json.dumps(a))] = None if r is None else flat(r)
+        except Exception as e:
+            out[(meth, json.dumps(a))] = 'raises ' + exc_name(e)
+    return out
+
+
+def cmp_results(ra, rb, rtol):
+    """first key where two result dictionaries differ"""
+    for k in ra:
+        a, b = ra[k], rb.get(k)
+        if isinstance(a, str) or isinstance(b, str) or a is None or b is None:
+            if not ((isinstance(a, str) and isinstance(b, str)) or (a is None and b is None)):
+                return k, a, b
+            continue
+        if a.shape != b.shape or not np.all(np.abs(a - b) <= rtol * np.maximum(np.abs(a), np.abs(b)) + 1e-300):
+            return k, a, b
+    return None
+
+
+def history_case(c):
+    """ONE surrogate object: train (first grids) -> queries -> train again (second grids) / fromJson of another
+    surrogate's file -> the same queries, the one asked last coming first.  Afterwards the object must answer
+    like a FRESH surrogate that was only ever given the final training (and like one rebuilt from its json file)."""
+    system = c['system']
+    s, th = make_surrogate(system)
+    site = ('BinarySurrogate' if system == 'binary' else 'MulticomponentSurrogate')
+    queries = [(m, a) for m, a in c['queries']]
+    try:
+        for q, g in c['first']:
+            train(s, system, q, g)
+        query_all(s, system, queries)
+        if c['how'] == 'retrain':
+            for q, g in c['second']:
+                train(s, system, q, g)
+        else:       # fromJson of a file written by another object that holds the second training
+            other, _ = make_surrogate(system, th)
+            for q, g in c['second']:
+                train(other, system, q, g)
+            path = os.path.join(BUILD[0], 'hist_%d.json' % c.get('idx', 0))
+            other.toJson(path)
+            s.fromJson(path)
+        fresh, _ = make_surrogate(system, th)
+        final = dict((q, g) for q, g in c['first']) if c['how'] == 'retrain' else {}
+        final.update(dict((q, g) for q, g in c['second']))
+        if c['how'] != 'retrain':
+            # quantities only in the first training are dropped by fromJson? no: fromJson replaces the data dictionaries
+            final = dict((q, g) for q, g in c['second'])
+        for q, g in final.items():
+            train(fresh, system, q, g)
+    except Exception as e:
+        return [('no_internal_error', 'harness/c20.py', 'history setup', 'setting up a surrogate history raised %s' % exc_name(e))]
+    order = list(reversed(queries))             # the query asked last before comes first
+    got = query_all(s, system, order)
+    ref = query_all(fresh, system, order)
+    hits = []
+    d = cmp_results(ref, got, 1e-9)
+    if d is not None:
+        (meth, a), want, have = d[0], d[1], d[2]
+        what = 'trained again' if c['how'] == 'retrain' else 'given new training data by fromJson'
+        hits.append(('history_independent', site + '.' + meth, 'state kept from the earlier model',
+                     'a surrogate that was trained (%s), queried, and then %s (%s) answers %s%s = %s; a fresh surrogate with the final training answers %s'
+                     % ([q for q, _ in c['first']], what, [q for q, _ in c['second']], meth, a, short(have) if not isinstance(have, str) else have,
+                        short(want) if not isinstance(want, str) else want)))
+    return hits
+
+
+def interleaved_case(c):
+    """two surrogate objects alive together, trained and queried alternately, each compared with a copy that
+    lived alone"""
+    system = c['system']
+    objs, alone = [], []
+    try:
+        for k in range(2):
+            objs.append(make_surrogate(system)[0])
+        steps = c['steps']                     # [(object index, 'train', q, g) | (object index, 'query')]
+        for st in steps:
+            if st[1] == 'train':
+                train(objs[st[0]], system, st[2], st[3])
+            else:
+                query_all(objs[st[0]], system, c['queries'])
+        for k in range(2):
+            a = make_surrogate(system)[0]
+            for st in steps:
+                if st[0] == k and st[1] == 'train':
+                    train(a, system, st[2], st[3])
+            alone.append(a)
+    except Exception as e:
+        return [('no_internal_error', 'harness/c20.py', 'interleaved setup', 'setting up interleaved surrogates raised %s' % exc_name(e))]
+    hits = []
+    for k in range(2):
+        d = cmp_results(query_all(alone[k], system, c['queries']), query_all(objs[k], system, c['queries']), 1e-9)
+        if d is not None:
+            hits.append(('objects_independent', 'Surrogate', 'two objects alive together',
+                         'surrogate %d of two that were trained and queried alternately answers %s%s = %s, alone it answers %s'
+                         % (k, d[0][0], d[0][1], d[2] if isinstance(d[2], str) else short(d[2]), d[1] if isinstance(d[1], str) else short(d[1]))))
+            break
+    return hits
+
+
+FORMS = ['float', 'np.float64', '0-d array', 'list', 'tuple', '1-d array', 'int dtype']
+
+
+def as_form(v, form):
+    """a scalar value in one of the calling conventions (int dtype only for integral values)"""
+    if form == 'float':
+        return float(v)
+    if form == 'np.float64':
+        return np.float64(v)
+    if form == '0-d array':
+        return np.array(float(v))
+    if form == 'list':
+        return [float(v)]
+    if form == 'tuple':
+        return (float(v),)
+    if form == '1-d array':
+        return np.array([float(v)])
+    if form == 'int dtype':
+        return int(v) if float(v) == int(v) else float(v)
+    raise ValueError(form)
+
+
+def conventions_case(c):
+    """one query of one getter (trained or not) with the scalar arguments given as Python float, numpy scalar,
+    0-d array, list, tuple, 1-d array, integer: all must give the same numbers; argument objects are unchanged
+    afterwards and are used again for a second call that must give the same result"""
+    system, meth = c['system'], c['method']
+    s, th = make_surrogate(system)
+    try:
+        for q, g in c.get('train', []):
+            train(s, system, q, g)
+    except Exception as e:
+        return [('no_internal_error', 'harness/c20.py', 'conventions setup', 'training raised %s' % exc_name(e))]
+    site = SITE[meth] + '.' + meth
+    base = None
+    hits = []
+    for form in FORMS:
+        args = []
+        for v, scalar in zip(c['args'], c['scalar']):
+            args.append(as_form(v, form) if scalar else (np.array(v, dtype=float) if isinstance(v, list) else v))
+        keep = copy.deepcopy(args)
+        try:
+            r1 = getattr(s, meth)(*args)
+            same_args = all(deq(np.asarray(a), np.asarray(b)) and type(a) == type(b) for a, b in zip(args, keep))
+            r2 = getattr(s, meth)(*args)
+        except Exception as e:
+            if base is not None and not isinstance(base, str):
+                hits.append(('calling_conventions', site, 'raises', '%s%s with the scalar arguments given as %s raised %s; as Python floats it returns a value'
+                             % (meth, tuple(c['args']), form, exc_name(e))))
+                break
+            if base is None:
+                base = 'raises'
+            continue
+        if not same_args:
+            hits.append(('calling_conventions', site, 'argument modified', '%s modified an argument object given as %s: %r -> %r' % (meth, form, keep, args)))
+            break
+        f1 = None if r1 is None else flat(r1)
+        f2 = None if r2 is None else flat(r2)
+        if (f1 is None) != (f2 is None) or (f1 is not None and not deq(f1, f2)):
+            hits.append(('calling_conventions', site, 'second call', '%s%s (%s) returns %s the first time and %s when the same argument objects are used again'
+                         % (meth, tuple(c['args']), form, short(r1), short(r2))))
+            break
+        if base is None:
+            base = f1 if f1 is not None else 'none'
+            continue
+        if isinstance(base, str):
+            if (base == 'none') != (f1 is None):
+                hits.append(('calling_conventions', site, 'value', '%s%s: None for one calling convention, a value for %s' % (meth, tuple(c['args']), form)))
+                break
+            continue
+        if f1 is None or f1.shape != base.shape or not np.all(np.abs(f1 - base) <= 1e-9 * np.maximum(np.abs(f1), np.abs(base)) + 1e-300):
+            hits.append(('calling_conventions', site, 'value', '%s%s: %s with the scalar arguments given as %s, %s as Python floats'
+                         % (meth, tuple(c['args']), short(r1), form, np.array2string(base, precision=6, threshold=6))))
+            break
+    return hits
+
+
+def gen_history(rng, idx):
+    system = str(rng.choice(['binary', 'ternary'], p=[0.6, 0.4]))
+    qs = ['drivingForce', 'diffusivity', 'interfacial'] if system == 'binary' else ['drivingForce', 'diffusivity', 'curvature']
+    q = qs[idx % len(qs)]
+    g1 = gen_grid(rng, system, q)
+    if q == 'interfacial' and g1['broadcast']:
+        g1['T'] = g1['T'][:1]
+    # second training with the same input transform: a refined / shifted grid, or (single-valued temperature) another temperature
+    g2 = copy.deepcopy(g1)
+    if 'T' in g2 and len(g2['T']) == 1:
+        g2['T'] = [g2['T'][0] + float(rng.choice([40.0, 75.0]))]
+    elif g2.get('broadcast') and 'T' in g2 and q != 'interfacial':
+        g2['T'] = sorted(g2['T'] + [float(np.mean(g2['T'])) + 7.0])
+    else:
+        for key in ('x', 'g'):
+            if key in g2:
+                g2[key] = (np.array(g2[key]) * 1.07).tolist()
+    meths = {'drivingForce': ['getDrivingForce'], 'diffusivity': ['getInterdiffusivity', 'getTracerDiffusivity'],
+             'interfacial': ['getInterfacialComposition'], 'curvature': ['curvatureFactor', 'impingementFactor']}[q]
+    # queries: training points of the second grid (scalar form) and a random point
+    pts = grid_points(system, q, g2)
+    queries = []
+    for mth in meths:
+        for pt in [pts[int(rng.integers(0, len(pts)))], pts[0]]:
+            queries.append([mth, [pt[0], pt[1]]])
+    how = 'retrain' if rng.random() < 0.65 else 'fromJson'
+    first = [[q, g1]]
+    if rng.random() < 0.3:
+        q0 = str(rng.choice([x for x in qs if x != q]))
+        g0 = gen_grid(rng, system, q0)
+        if q0 == 'interfacial' and g0['broadcast']:
+            g0['T'] = g0['T'][:1]
+        first.append([q0, g0])
+    return {'kind': 'history', 'system': system, 'first': first, 'second': [[q, g2]], 'how': how, 'queries': queries}
+
+
+def gen_interleaved(rng, idx):
+    system = str(rng.choice(['binary', 'ternary']))
+    qs = ['drivingForce', 'diffusivity', 'interfacial'] if system == 'binary' else ['drivingForce', 'diffusivity', 'curvature']
+    steps = []
+    for k in range(2):
+        for q in rng.choice(qs, 2, replace=False):
+            g = gen_grid(rng, system, str(q))
+            if q == 'interfacial' and g['broadcast']:
+                g['T'] = g['T'][:1]
+            steps.append([k, 'train', str(q), g])
+        steps.append([k, 'query'])
+    order = [int(i) for i in rng.permutation(len(steps))]
+    # keep each object's own order, interleave the two
+    a = [st for st in steps if st[0] == 0]
+    b = [st for st in steps if st[0] == 1]
+    mixed = []
+    while a or b:
+        src = a if (a and (not b or rng.random() < 0.5)) else b
+        mixed.append(src.pop(0))
+    queries = [[m, gen_args(rng, system, m)] for m in GETTERS[system] for _ in range(2)]
+    return {'kind': 'interleaved', 'system': system, 'steps': mixed, 'queries': queries}
+
+
+def gen_conventions(rng, idx):
+    system = str(rng.choice(['binary', 'ternary']))
+    meth = GETTERS[system][idx % len(GETTERS[system])]
+    trained = bool(rng.random() < 0.6)
+    c = {'kind': 'conventions', 'system': system, 'method': meth}
+    Tint = float(rng.integers(660, 750)) if system == 'binary' else float(rng.integers(1010, 1140))
+    if system == 'binary':
+        if meth == 'getInterfacialComposition':
+            c['args'], c['scalar'] = [Tint, float(rng.integers(100, 2000))], [True, True]
+        else:
+            c['args'], c['scalar'] = [float(10 ** rng.uniform(-3, -1.5)), Tint], [True, True]
+    else:
+        x = [float(v) for v in rng.uniform(0.03, 0.2, 2)]
+        if meth == 'getGrowthAndInterfacialComposition':
+            c['args'], c['scalar'] = [x, Tint, float(rng.integers(100, 900)), 2e-9, 600.0], [False, True, True, True, True]
+        else:
+            c['args'], c['scalar'] = [x, Tint], [False, True]
+    if trained:
+        q = OWN_QUANTITY[meth]
+        g = gen_grid(rng, system, q)
+        if q == 'interfacial' and g['broadcast']:
+            g['T'] = g['T'][:1]
+        c['train'] = [[q, g]]
+    return c
+
+
+# ==========================================================================================
 # generators
 def gen_grid(rng, system, q):
     log = bool(rng.random() < 0.5)
@@ -1192,7 +1579,12 @@ def gen_prec(rng, idx, quick):
         times = [float(rng.choice([0.2, 0.5])) for _ in range(nseg)]
     else:
         times = [float(rng.choice([1.0, 3.0, 8.0, 15.0])) for _ in range(nseg)]
-    return {'kind': 'prec', 'phases': ['B1', 'B2', 'B3'][:nph], 'record': str(rng.choice(['on', 'off', 'toggle'], p=[0.45, 0.4, 0.15])),
+    names = None
+    if rng.random() < 0.4:          # output names of their own (also one that is another precipitate's database name)
+        names = [['Beta one (L12)', 'B1', 'theta-prime'], ['B2', 'B1', 'B3 (metastable)'], ['p.1', 'p.2', 'p.3']][int(rng.integers(0, 3))][:nph]
+        if nph == 1 and names == ['B1']:
+            names = ['beta']
+    return {'kind': 'prec', 'phases': ['B1', 'B2', 'B3'][:nph], 'names': names, 'record': str(rng.choice(['on', 'off', 'toggle'], p=[0.45, 0.4, 0.15])),
             'times': times, 'solver': solver, 'strength': bool(rng.random() < 0.35), 'x0': float(rng.choice([2e-2, 1.5e-2])),
             'T': float(rng.choice([700., 680.])), 'gamma': float(rng.choice([0.15, 0.13])),
             'bins': [1e-10, 1e-8, int(rng.choice([75, 40])), 50 if rng.random() < 0.7 else 30, 100], 'adaptive': bool(rng.random() < 0.85)}
@@ -1219,6 +1611,15 @@ def evaluate_case(c, py):
         if k == 'files':
             r = run_files(c, py)
             return list(r['hits']), r
+        if k == 'mhist':
+            r = run_mhist(c, py)
+            return list(r['hits']), r
+        if k == 'history':
+            return history_case(c), None
+        if k == 'interleaved':
+            return interleaved_case(c), None
+        if k == 'conventions':
+            return conventions_case(c), None
         if k == 'untrained':
             return untrained_case(c), None
         if k == 'trained':
@@ -1234,7 +1635,12 @@ def shrinks(c):
         if len(c['times']) > 1:
             d = dict(c); d['times'] = c['times'][:1]; yield d
         if k == 'prec' and len(c['phases']) > 1:
-            d = dict(c); d['phases'] = c['phases'][:1]; d['times'] = c['times'][:1]; yield d
+            d = dict(c); d['phases'] = c['phases'][:1]; d['times'] = c['times'][:1]
+            if c.get('names'):
+                d['names'] = c['names'][:1] if c['names'][:1] != c['phases'][:1] else ['beta']
+            yield d
+        if k == 'prec' and c.get('names'):
+            d = dict(c); d['names'] = None; yield d
         if k == 'prec' and c.get('strength'):
             d = dict(c); d['strength'] = False; yield d
         if c['solver'] != 'euler':
@@ -1252,6 +1658,12 @@ def shrinks(c):
             for j in range(i + 1, n):
                 d = dict(c); d['names'] = [c['names'][i], c['names'][j]]; d['specs'] = [c['specs'][i], c['specs'][j]]; d['load_order'] = [0, 1]
                 yield d
+    if k == 'history':
+        if len(c['first']) > 1:
+            d = dict(c); d['first'] = [x for x in c['first'] if x[0] == c['second'][0][0]] or c['first'][:1]; yield d
+        for i in range(len(c['queries'])):
+            if len(c['queries']) > 1:
+                d = dict(c); d['queries'] = [c['queries'][i]]; yield d
     if k == 'reload':
         for i in range(len(c['train'])):
             if len(c['train']) > 1:
@@ -1432,6 +1844,7 @@ def explore(ctx, cases, py):
             ctx.hist('solve calls before save', len(c['times']))
             if c['kind'] == 'prec':
                 ctx.hist('phases', len(c['phases']))
+                ctx.hist('precipitate output names', 'own names' if c.get('names') and list(c['names']) != list(c['phases']) else 'same as phase names')
             if r is not None:
                 ctx.hist('steps before save', '0' if r['steps'] == 0 else '1-99' if r['steps'] < 100 else '100-999' if r['steps'] < 1000 else '>=1000')
         elif c['kind'] == 'untrained':
@@ -1454,9 +1867,17 @@ def explore(ctx, cases, py):
                 corrs.append((c, {'model': 'names', **r['names_corr']}))
         elif c['kind'] == 'trained':
             ctx.hist('trained grid', '%s/%s/%s/%s' % (c['system'], c['quantity'], 'broadcast' if c['grid']['broadcast'] else 'pointwise', 'log' if c['grid']['log'] else 'linear'))
+        elif c['kind'] == 'mhist':
+            ctx.hist('model history', '%s/%s' % (c['model'], c['variant']))
+        elif c['kind'] == 'history':
+            ctx.hist('surrogate history', '%s/%s/%s' % (c['system'], c['second'][0][0], c['how']))
+        elif c['kind'] == 'conventions':
+            ctx.hist('calling conventions', '%s/%s/%s' % (c['system'], c['method'], 'trained' if c.get('train') else 'untrained'))
+        elif c['kind'] == 'interleaved':
+            ctx.hist('interleaved objects', c['system'])
         elif c['kind'] == 'reload':
             ctx.hist('reload', c['system'] + '/' + '+'.join(sorted(q for q, _ in c['train'])))
-        if c['kind'] != 'files' and r is not None and r.get('corr') and py is not None and r['stage'] != 'solve':
+        if c['kind'] not in ('files', 'mhist') and r is not None and r.get('corr') and py is not None and r['stage'] != 'solve':
             corrs.append((c, r['corr']))
             if r.get('corr_strength'):
                 corrs.append((c, r['corr_strength']))
@@ -1497,6 +1918,10 @@ def gen_cases(ctx, quick, budget=1.0):
     cases += gen_untrained(rng, n(2, 12))
     cases += [gen_trained(rng, i) for i in range(n(40, 400))]
     cases += [gen_reload(rng, i) for i in range(n(10, 80))]
+    cases += [gen_mhist(rng, i, quick) for i in range(n(9, 72))]
+    cases += [gen_history(rng, i) for i in range(n(18, 150))]
+    cases += [gen_interleaved(rng, i) for i in range(n(4, 30))]
+    cases += [gen_conventions(rng, i) for i in range(n(20, 160))]
     return cases
 
 
